@@ -5,6 +5,7 @@ import LapyVerif.Props.C03
 import LapyVerif.Bridge.DiffGeo
 import LapyVerif.Bridge.Fem
 import LapyVerif.Bridge.Poisson
+import LapyVerif.Bridge.GeoGlue
 /- axiom audit of C08 (ingredients, then the composition theorems of Props/C08.lean) -/
 #print axioms LapyVerif.Props.C06.triDiv_sum_zero
 #print axioms LapyVerif.Props.C06.tetDiv_sum_zero
@@ -67,3 +68,8 @@ import LapyVerif.Bridge.Poisson
 #print axioms LapyVerif.Bridge.census_FemTriaAniso_pcCount
 #print axioms LapyVerif.Bridge.census_FemTet_pcCount
 #print axioms LapyVerif.Bridge.census_PoissonSys_pcCount
+#print axioms LapyVerif.Bridge.geo_field
+#print axioms LapyVerif.Bridge.rot_field
+#print axioms LapyVerif.Bridge.geo_result
+#print axioms LapyVerif.Bridge.geo_facts
+#print axioms LapyVerif.Bridge.census_GeoGlue_pcCount
